@@ -21,7 +21,8 @@ Explained(r) ==
          ELSE PrintT(<<"UNMODELLED", r.act>>)
     [] r.k = "render" -> /\ RenderT(r.pre, r.env, r.lastFocus) = r.post
                          /\ (r.env.maxItems > 0 => CursorDesignates(r.post, r.env) /\ ViewOK(r.post, r.env))
-    [] r.k = "list" -> ListChangedT(r.pre, r.oldList, r.newList, r.kind, LAMBDA x : x >= r.minLoaded, r.maxItems) = r.post
+    [] r.k = "list" -> ListChangedTF(r.pre, r.oldList, r.newList, r.kind, LAMBDA x : x >= r.minLoaded, r.maxItems,
+                                     "tacpass" \in DOMAIN r /\ r.tacpass) = r.post
     [] r.k = "steady" -> r.pre = r.post
     [] r.k = "items" -> r.texts = r.orig        \* items never change after they have been read
     [] r.k = "exit" -> Exits(r.act, r.pre, r.env, r.reading, r.count) = r.how
